@@ -436,6 +436,34 @@ def gen_cases(ctx, rng):
                           cnat(N), clist(pairs, lambda p: "(%s, %s)" % (cnat(p[0]), cnat(p[1])))),
                       qft_impl(N, pairs), N > 2))
 
+    # ---- enr_thermal_dm at occupations for which the unnormalised weights and their
+    # sum are exact floats (n in {0, 1, 3}; mixed zero / non-zero lists): the
+    # implementation must return the correctly rounded quotient of the model's
+    # exact rationals
+    def enrth_impl(dims, E, ns):
+        def th():
+            r = call(q.enr_thermal_dm, dims, E, [float(x) for x in ns])
+            if r[0] == "err":
+                return None, [r[1:]]
+            M = r[1].full()
+            bad = []
+            if np.any(M - np.diag(np.diag(M))) or np.any(np.diag(M).imag):
+                bad.append("not a real diagonal matrix")
+            if not np.all(np.isfinite(M)):
+                bad.append("non-finite entries")
+            return [float(x.real).hex() for x in np.diag(M)], bad
+        return th
+    for _ in range(14 if quick else 80):
+        k = rng.randrange(1, 4)
+        dims = [rng.randrange(1, 5) for _ in range(k)]
+        E = rng.randrange(0, 5)
+        ns = [rng.choice([0, 0, 1, 3]) for _ in range(k)]
+        cases.append((("enr_thermal", tuple(dims), E, tuple(ns)),
+                      "match state_number_enumerate %s %s with Ok (l, _) => map (fun x => (Qnum (Qred x), "
+                      "Zpos (Qden (Qred x)))) (enr_thermal l %s) | Err _ => [] end" % (
+                          clist(dims, cz), cz(E), clist(ns, lambda x: "(%d # 1)%%Q" % x)),
+                      enrth_impl(dims, E, ns), any(ns) and not all(ns)))
+
     # ---- hadamard_transform: sampled entries against the model (sign and the
     # exact common factor 2**(-N/2)); qubit counts across the 8-bit boundary
     from qutip.core import gates as G
@@ -496,6 +524,8 @@ def canon_model(key, v):
         return list(v)
     if kind == "thermal":
         return [tuple(x) for x in v]
+    if kind == "enr_thermal":
+        return [float(a / b).hex() if b else "nan" for a, b in v]   # int / int is correctly rounded
     if kind == "basis":
         return None if v is None else v[1]
     if kind in ("w", "ghz"):
@@ -1679,6 +1709,220 @@ def width_oracle(ctx, rng):
     return nchk[0]
 
 
+
+# ------------------------------------------------ boundary-VALUE oracle
+# Every constructor with a vector-valued / per-mode / continuous parameter is
+# swept over boundary values of each entry (0, tiny, huge, mixed zero and
+# non-zero, illegal values must raise) against a definition-level reference;
+# non-finite entries, lost normalisation or positivity are direct violations.
+def _finite_dm(M, tol=1e-9):
+    """None or the first failed density-matrix predicate"""
+    if not np.all(np.isfinite(M)):
+        return "nonfinite"
+    if dev(M, M.conj().T) > tol:
+        return "not Hermitian"
+    if abs(np.trace(M) - 1) > tol:
+        return "trace != 1"
+    if np.linalg.eigvalsh((M + M.conj().T) / 2).min() < -tol:
+        return "not positive"
+    return None
+
+
+def value_oracle(ctx, rng):
+    import qutip as q
+    nchk = [0]
+
+    def case(key, nontrivial=True):
+        nchk[0] += 1
+        ctx.count_case(("value",) + tuple(key), nontrivial)
+
+    def viol(site, sig, what, det):
+        ctx.violation(site, sig, what, det)
+
+    TINY, HUGE = [1e-300, 1e-18, 1e-12], [1e6, 1e12]
+
+    # ---- enr_thermal_dm: per-mode occupations, reference = product of thermal
+    # states restricted to the allowed states and renormalised (0^0 = 1)
+    occ_lists = lambda k: ([[0.0] * k, [0.5] + [0.0] * (k - 1), [0.0] * (k - 1) + [2.0],
+                            [1e-300] + [3.0] * (k - 1), [1e12] * k, [0.0, 1e12][:k] + [0.25] * max(0, k - 2),
+                            [1e-12] * k, [rng.choice([0.0, 0.5, 1.0, 7.5]) for _ in range(k)]])
+    for dims, E in [([3, 4], 2), ([2, 2, 2], 3), ([5], 4), ([1, 3], 2), ([4, 4], 0), ([3, 2, 4], 4)]:
+        k = len(dims)
+        allowed = [s_ for s_ in itertools.product(*[range(d) for d in dims]) if sum(s_) <= E]
+        for n in occ_lists(k) + [0.0, 0.5, 1e-300, 1e12]:
+            nl = list(n) if isinstance(n, list) else [n] * k
+            case(("enr_thermal_dm", tuple(dims), E, str(n)))
+            r = call(q.enr_thermal_dm, dims, E, n)
+            det = {"dims": dims, "excitations": E, "n": n}
+            if r[0] == "err":
+                viol("energy_restricted.enr_thermal_dm", r[1], "enr_thermal_dm(%r, %d, %r) raises %s: %s" % (
+                    dims, E, n, r[1], r[2][:120]), det)
+                continue
+            M = r[1].full()
+            kind = _finite_dm(M)
+            if kind is None:
+                w = []
+                for st in allowed:
+                    x = 1.0
+                    for nk, sk in zip(nl, st):
+                        rr = nk / (1.0 + nk)
+                        x *= 1.0 if sk == 0 else rr ** sk
+                    w.append(x)
+                tot = sum(w)
+                ref = np.array(w) / tot
+                if np.any(M - np.diag(np.diag(M))) or np.max(np.abs(np.diag(M).real - ref)) > 1e-12:
+                    kind = "differs from the restricted product of thermal states"
+                elif r[1].dims[0] != dims and not (len(dims) == 1):
+                    kind = None
+            if kind:
+                det["got_diag"] = [repr(float(x.real)) for x in np.diag(M)[:6]]
+                viol("energy_restricted.enr_thermal_dm", kind.split(" ")[0],
+                     "enr_thermal_dm(%r, %d, %r): %s" % (dims, E, n, kind), det)
+            else:
+                check_cached_flags(ctx, "enr_thermal_dm", [str(dims), E, str(n)], r[1])
+    for dims, E in [([3, 4], 2), ([1, 1], 0), ([2, 2, 2], 0)]:
+        case(("enr_fock_values", tuple(dims), E), False)
+        n, s2i, i2s = q.enr_state_dictionaries(dims, E)
+        for idx in (0, n - 1):
+            f = q.enr_fock(dims, E, list(i2s[idx])).full()[:, 0]
+            if [int(x) for x in np.flatnonzero(f)] != [idx]:
+                viol("energy_restricted.enr_fock", "position (values)", "enr_fock(%r, %d, %r)" % (dims, E, i2s[idx]), {})
+        r = call(q.enr_fock, dims, E, [d for d in dims])        # outside the space: must raise
+        if r[0] != "err" or r[1] != "ValueError":
+            viol("energy_restricted.enr_fock", "no ValueError outside the space", "enr_fock outside the space", {"dims": dims})
+
+    # ---- thermal_dm: n = 0, tiny, huge, both methods
+    for N in [1, 2, 5, 40]:
+        for nb in [0, 0.0] + TINY + [1e-320, 0.5] + HUGE + [1e300]:
+            for method in ("operator", "analytic"):
+                case(("thermal_values", N, repr(nb), method))
+                r = call(q.thermal_dm, N, nb, method=method)
+                det = {"N": N, "n": repr(nb), "method": method}
+                if r[0] == "err":
+                    viol("states.thermal_dm:values", r[1], "thermal_dm(%d, %r, %s) raises %s" % (N, nb, method, r[1]), det)
+                    continue
+                M = r[1].full()
+                d_ = np.diag(M).real
+                rr = nb / (1.0 + nb)
+                ref = np.array([1.0 if k_ == 0 else rr ** k_ for k_ in range(N)])
+                ref = ref / ref.sum() if method == "operator" else ref / (1.0 + nb)
+                kind = None
+                if not np.all(np.isfinite(M)):
+                    kind = "nonfinite"
+                elif np.any(M - np.diag(np.diag(M))) or (d_ < 0).any():
+                    kind = "not a non-negative diagonal"
+                elif method == "operator" and abs(d_.sum() - 1) > 1e-9:
+                    kind = "trace != 1"
+                elif np.max(np.abs(d_ - ref)) > 1e-12:
+                    kind = "populations differ from (n/(1+n))^k"
+                if kind:
+                    det["got"] = [repr(float(x)) for x in d_[:4]]
+                    viol("states.thermal_dm:values", kind.split(" ")[0] + ":" + method,
+                         "thermal_dm(%d, %r, method=%s): %s" % (N, nb, method, kind), det)
+
+    # ---- zero / tiny arguments of the exponential constructors and closed forms
+    for N in [2, 5, 12]:
+        for z in [0, 0.0, 0j, 1e-300, 1e-18, complex(0, 1e-12)]:
+            case(("exp_values", N, repr(z)))
+            for nm, f in (("displace", q.displace), ("squeeze", q.squeeze)):
+                r = call(f, N, z)
+                if r[0] == "err":
+                    viol("operators.%s:values" % nm, r[1], "%s(%d, %r) raises" % (nm, N, z), {"N": N, "z": repr(z)})
+                    continue
+                U = r[1].full()
+                if not np.all(np.isfinite(U)) or dev(U, np.eye(N)) > 1e-9:
+                    viol("operators.%s:values" % nm, "identity", "%s(%d, %r) is not the identity" % (nm, N, z),
+                         {"N": N, "z": repr(z)})
+                if z == 0:       # for 0 < |z| << atol the literal flags are mathematically right
+                    check_cached_flags(ctx, nm, [N, repr(z)], r[1])
+            for method in ("operator", "analytic"):
+                r = call(q.coherent, N, z, method=method)
+                v = r[1].full()[:, 0] if r[0] == "ok" else None
+                e0 = np.zeros(N, complex)
+                e0[0] = 1
+                if v is None or not np.all(np.isfinite(v)) or dev(v, e0) > 1e-9:
+                    viol("states.coherent:values", method, "coherent(%d, %r, %s) is not the vacuum" % (N, z, method),
+                         {"N": N, "alpha": repr(z)})
+            r = call(q.coherent_dm, N, z)
+            if r[0] == "err" or _finite_dm(r[1].full()):
+                viol("states.coherent_dm:values", "dm", "coherent_dm(%d, %r) wrong" % (N, z), {"N": N})
+    for j in [0.5, 1, 3.5]:
+        for th_, want in [(0.0, 0), (math.pi, int(2 * j))]:
+            case(("spin_coherent_values", j, th_))
+            v = q.spin_coherent(j, th_, 0.7).full()[:, 0]
+            if not np.all(np.isfinite(v)) or abs(abs(v[want]) - 1) > 1e-9:
+                viol("states.spin_coherent:values", "pole", "spin_coherent(%g, %g, .) is not a pole state" % (j, th_), {"j": j})
+    for bad_j in [-0.5, 0.3, -1]:
+        case(("jmat_illegal", bad_j), False)
+        r = call(q.jmat, bad_j, "z")
+        if r[0] != "err" or r[1] != "ValueError":
+            viol("operators.jmat:values", "no ValueError", "jmat(%r) is accepted" % bad_j, {"j": bad_j})
+
+    # ---- qdiags value lists: zeros, tiny (below atol), huge, mixed
+    for d_ in [[0, 0, 0], [1, 0], [1e-13j, 1], [1 + 1e-13, 1], [1e300, 1], [-1, 1e-300], [1j, -1j, 0], [5e-324, 1]]:
+        case(("qdiags_values", str(d_)), False)
+        for off in (0, 1, -2):
+            r = call(q.qdiags, d_, off)
+            if r[0] == "err":
+                viol("operators.qdiags:values", r[1], "qdiags(%r, %d) raises" % (d_, off), {"diag": str(d_)})
+                continue
+            M = r[1].full()
+            want = np.diag(np.array(d_, complex), off)
+            if not np.array_equal(M, want):
+                viol("operators.qdiags:values", "entries", "qdiags(%r, %d) entries" % (d_, off), {"diag": str(d_)})
+            check_cached_flags(ctx, "qdiags", [str(d_), off], r[1])
+
+    # ---- tensor-structured state builders with 1-dimensional / boundary labels
+    for dims, lab in [([1, 3], [0, 2]), ([3, 1, 2], [2, 0, 1]), ([2, 2], [0, 0]), ([4], [3])]:
+        case(("builders", tuple(dims)), False)
+        want = int(np.ravel_multi_index(lab, dims))
+        for nm, v in (("basis", q.basis(dims, lab)), ("fock", q.fock(dims, lab)),
+                      ("fock_dm", q.fock_dm(dims, lab)), ("projection", q.projection(dims, lab, lab))):
+            A = v.full()
+            pos = [int(x) for x in np.flatnonzero(A if A.shape[1] == 1 else np.diag(A))]
+            if pos != [want] or abs(A.sum() - 1) != 0:
+                viol("states.%s:values" % nm, "position", "%s(%r, %r) wrong" % (nm, dims, lab), {"dims": dims, "label": lab})
+        if np.any(q.zero_ket(dims).full()) or abs(q.maximally_mixed_dm(dims).tr() - 1) > 1e-12:
+            viol("states.zero_ket:values", "value", "zero_ket / maximally_mixed_dm(%r)" % dims, {"dims": dims})
+
+    # ---- random generators at density 0 and 1, zero eigenvalues, rank 1 (watchdog)
+    for N in [2, 5]:
+        for dens in [0.0, 1e-12, 1.0]:
+            sd = rng.randrange(1 << 30)
+            case(("random_values", N, dens))
+            kw = {"N": N, "density": dens, "seed": sd}
+            calls = [
+                ("rand_herm", lambda: q.rand_herm(N, dens, seed=sd),
+                 lambda o: np.array_equal(o.full(), o.full().conj().T)),
+                ("rand_herm_pos_def", lambda: q.rand_herm(N, dens, "pos_def", seed=sd),
+                 lambda o: np.linalg.eigvalsh(o.full()).min() > 0),
+                ("rand_unitary", lambda: q.rand_unitary(N, dens, seed=sd),
+                 lambda o: dev(o.full() @ o.full().conj().T, np.eye(N)) < 1e-9),
+                ("rand_unitary_exp", lambda: q.rand_unitary(N, dens, "exp", seed=sd),
+                 lambda o: dev(o.full() @ o.full().conj().T, np.eye(N)) < 1e-9),
+                ("rand_ket_fill", lambda: q.rand_ket(N, dens, "fill", seed=sd), lambda o: abs(o.norm() - 1) < 1e-9),
+                ("rand_ket_haar", lambda: q.rand_ket(N, dens, "haar", seed=sd), lambda o: abs(o.norm() - 1) < 1e-9),
+                ("rand_dm", lambda: q.rand_dm(N, dens, seed=sd), lambda o: _finite_dm(o.full()) is None),
+                ("rand_dm_pure", lambda: q.rand_dm(N, dens, "pure", seed=sd), lambda o: _finite_dm(o.full()) is None),
+                ("rand_dm_herm", lambda: q.rand_dm(N, dens, "herm", seed=sd), lambda o: _finite_dm(o.full()) is None),
+                ("rand_dm_eigen0", lambda: q.rand_dm(N, max(dens, 0.5), "eigen",
+                                                    eigenvalues=[1.0] + [0.0] * (N - 1), seed=sd),
+                 lambda o: _finite_dm(o.full()) is None),
+                ("rand_stochastic", lambda: q.rand_stochastic(N, dens, seed=sd),
+                 lambda o: np.max(np.abs(o.full().sum(axis=0) - 1)) < 1e-12 and (o.full().real >= 0).all()),
+            ]
+            for nm, th, ok in calls:
+                r = call_watchdog(th, 10)
+                if r[0] == "err":
+                    viol("random_objects." + nm.split("_")[0] + "_" + nm.split("_")[1] + ":values", nm + ":" + r[1],
+                         "%s(N=%d, density=%r) raises %s: %s" % (nm, N, dens, r[1], r[2][:100]), kw)
+                elif not np.all(np.isfinite(r[1].full())) or not ok(r[1]):
+                    viol("random_objects." + nm.split("_")[0] + "_" + nm.split("_")[1] + ":values", nm + ":class",
+                         "%s(N=%d, density=%r) is not in its class" % (nm, N, dens), kw)
+    report_flags(ctx)
+    return nchk[0]
+
+
 # ------------------------------------------------------------------------ run
 
 
@@ -1728,7 +1972,11 @@ def run(ctx):
         "direct violations.  Width oracle: qubit counts 9-12, 16, 17 and dimensions 255-257, "
         "65535-65537 (2^8 / 2^16 index and element counts) against tensor-power / entry-formula "
         "references evaluated with Python integers on sampled entries, plus sampled-column "
-        "unitarity, involution and flag checks.")
+        "unitarity, involution and flag checks.  Value oracle: per-mode / vector / continuous "
+        "parameters at 0, tiny, huge and mixed zero / non-zero values (enr_thermal_dm, thermal_dm, "
+        "displace, squeeze, coherent, spin_coherent, qdiags lists, state builders, rand_* at density "
+        "0 and 1) against definition-level references; finiteness, normalisation and positivity "
+        "are direct violations.")
     ctx.cov["trusted_base"] += [
         "Model/C20.v is hand-written from operators.py / states.py / energy_restricted.py / "
         "random_objects.py / the shared front end of data/{dia,csr,dense}.pyx diags; tied by the "
@@ -1872,6 +2120,7 @@ def run(ctx):
     ctx.cov["oracle_checks"] = n
     ctx.cov["boundary_checks"] = boundary_oracle(ctx, rng)
     ctx.cov["width_checks"] = width_oracle(ctx, rng)
+    ctx.cov["value_checks"] = value_oracle(ctx, rng)
     ctx.cov["explanation"] = (
         "Theorems (Props/C20.v) hold for every dimension/offset/spin/excitation bound of the "
         "models; models are tied to the source by exact comparison on generated parameters in "
@@ -1913,6 +2162,9 @@ def replay(ctx, payload):
         ob = q.qdiags([0, 0], 1)
         if ob._isherm is False and not np.any(ob.full()):
             ctx.violation(site, payload["signature"], "qdiags([0,0],1) flagged isherm=False", d)
+        return
+    if ":values" in site or site == "energy_restricted.enr_thermal_dm":
+        value_oracle(ctx, random.Random(payload.get("seed", 0) * 7919 + 20))
         return
     if ":width" in site or ":width" in str(payload.get("signature")) or site == "gates.hadamard_transform":
         width_oracle(ctx, random.Random(payload.get("seed", 0) * 7919 + 20))
